@@ -4,6 +4,128 @@ package rtpmpeg4audio
 
 // Contracts checked by /verif/govc (see /verif/DESIGN.md). Comment-only file.
 
+// --- encoder (C06) -------------------------------------------------------------------------
+// sumlen(s, n): bytes of the first n access units; hb(sl, il, idl, c): bits of the AU-header
+// section for c access units (the first carries AU-Index, the others AU-Index-delta);
+// lagg: size of the payload that aggregates them (2-byte AU-headers-length, headers rounded
+// up to a byte, data).
+//@ spec nn(x int) int = ite(x >= 0, x, 0)
+//@ ufun sumlen(s [][]byte, n int) int = ite(n <= 0, 0, sumlen(s, n-1) + nn(len(s[n-1])))
+//@   lemma[n; t [][]byte] (forall k :: 0 <= k && k < n ==> len(s[k]) == len(t[k])) ==> sumlen(s, n) == sumlen(t, n)
+//@   trigger sumlen(s, n)
+//@   trigger sumlen(t, n)
+//@   lemma[n; j int] 0 <= j && j <= n ==> sumlen(s, j) <= sumlen(s, n) && sumlen(s, j) >= 0
+//@   trigger sumlen(s, j)
+//@   trigger sumlen(s, n)
+//@   lemma[n] n >= 0 && (forall k :: 0 <= k && k < n ==> len(s[k]) >= 1) ==> sumlen(s, n) >= n
+//@   trigger sumlen(s, n)
+//@ ufun hb(sl int, il int, idl int, c int) int = ite(c <= 0, 0, ite(c == 1, sl + il, hb(sl, il, idl, c-1) + sl + idl))
+//@   lemma[c] sl >= 0 && il >= 0 && idl >= 0 ==> hb(sl, il, idl, c) >= 0
+//@   trigger hb(sl, il, idl, c)
+//@   lemma[c; j int] sl >= 0 && il >= 0 && idl >= 0 && 0 <= j && j <= c ==> hb(sl, il, idl, j) <= hb(sl, il, idl, c)
+//@   trigger hb(sl, il, idl, j)
+//@   trigger hb(sl, il, idl, c)
+//@ spec cd8(x int) int = (x + 7) / 8
+//@ spec okfields(sl int, il int, idl int) bool = 1 <= sl && sl <= 64 && 0 <= il && il <= 64 && 0 <= idl && idl <= 64
+
+//@ func packetCount
+//@   requires avail > 0 && le >= 0
+//@   ensures ret >= 0 && (ret-1)*avail < le && le <= ret*avail
+//@   modifies nothing
+
+//@ func (e *Encoder) lenAggregated
+//@   requires okfields(e.SizeLength, e.IndexLength, e.IndexDeltaLength)
+//@   ensures ret == 2 + cd8(hb(e.SizeLength, e.IndexLength, e.IndexDeltaLength, len(aus) + ite(addAU != nil, 1, 0))) + sumlen(aus, len(aus)) + len(addAU)
+//@   modifies nothing
+//@   loop 1
+//@     invariant i == _i && 0 <= _i && _i <= len(aus) && auHeadersLen == hb(e.SizeLength, e.IndexLength, e.IndexDeltaLength, i)
+//@   loop 2
+//@     invariant 0 <= _i && _i <= len(aus) && n == 2 + cd8(auHeadersLen) + sumlen(aus, _i)
+
+//@ func (e *Encoder) writeAggregated
+//@   opt frame-tag=C06
+//@   requires e.SSRC != nil && len(aus) >= 1 && okfields(e.SizeLength, e.IndexLength, e.IndexDeltaLength)
+//@   requires forall k :: 0 <= k && k < len(aus) ==> len(aus[k]) >= 1
+//@   requires 2 + cd8(hb(e.SizeLength, e.IndexLength, e.IndexDeltaLength, len(aus))) + sumlen(aus, len(aus)) <= 65535
+//@   ensures[C06] err == nil && len(ret) == 1 && ret[0] != nil && fresh(ret) && fresh(ret[0])
+//@   ensures[C06] len(ret[0].Payload) == 2 + cd8(hb(e.SizeLength, e.IndexLength, e.IndexDeltaLength, len(aus))) + sumlen(aus, len(aus))
+//@   ensures[C06] ret[0].SequenceNumber == old(e.sequenceNumber) && e.sequenceNumber == old(e.sequenceNumber) + 1
+//@   ensures[C06] ret[0].Marker && ret[0].PayloadType == e.PayloadType && ret[0].SSRC == *e.SSRC
+//@   modifies e.sequenceNumber, fresh
+//@   loop 1
+//@     invariant 0 <= _i && _i <= len(aus) && fresh(payload) && len(payload) == 2 + cd8(hb(e.SizeLength, e.IndexLength, e.IndexDeltaLength, len(aus))) + sumlen(aus, len(aus))
+//@     invariant written == hb(e.SizeLength, e.IndexLength, e.IndexDeltaLength, _i) && pos == written
+//@   loop 2
+//@     invariant 0 <= _i && _i <= len(aus) && fresh(payload) && pos == 2 + cd8(hb(e.SizeLength, e.IndexLength, e.IndexDeltaLength, len(aus))) + sumlen(aus, _i)
+//@     invariant len(payload) == 2 + cd8(hb(e.SizeLength, e.IndexLength, e.IndexDeltaLength, len(aus))) + sumlen(aus, len(aus))
+
+//@ func (e *Encoder) writeFragmented
+//@   opt frame-tag=C06
+//@   requires e.SSRC != nil && e.PayloadMaxSize <= 65535 && len(au) >= 1 && okfields(e.SizeLength, e.IndexLength, e.IndexDeltaLength)
+//@   requires e.PayloadMaxSize - 2 - cd8(e.SizeLength + e.IndexLength) >= 1
+//@   ensures[C06] err == nil && len(ret) >= 1 && fresh(ret)
+//@   ensures[C06] forall j :: 0 <= j && j < len(ret) ==> ret[j] != nil && fresh(ret[j]) && len(ret[j].Payload) <= e.PayloadMaxSize
+//@   ensures[C06] forall j :: 0 <= j && j < len(ret) ==> ret[j].SequenceNumber == old(e.sequenceNumber) + uint16(j)
+//@   ensures[C06] e.sequenceNumber == old(e.sequenceNumber) + uint16(len(ret))
+//@   ensures[C06] forall j :: 0 <= j && j < len(ret) ==> ret[j].Marker == (j == len(ret)-1)
+//@   ensures[C06] forall j :: 0 <= j && j < len(ret) ==> ret[j].PayloadType == e.PayloadType && ret[j].SSRC == *e.SSRC
+//@   modifies e.sequenceNumber, fresh
+//@   loop 1
+//@     invariant 0 <= i && i <= packetCount && len(ret) == packetCount && packetCount >= 1 && fresh(ret)
+//@     invariant auHeadersLen == e.SizeLength + e.IndexLength && auHeadersLenBytes == cd8(auHeadersLen) && avail == e.PayloadMaxSize - 2 - auHeadersLenBytes && avail >= 1
+//@     invariant e.PayloadMaxSize == old(e.PayloadMaxSize) && e.SSRC == old(e.SSRC) && *e.SSRC == old(*e.SSRC) && e.PayloadType == old(e.PayloadType)
+//@     invariant e.SizeLength == old(e.SizeLength) && e.IndexLength == old(e.IndexLength)
+//@     invariant i < packetCount ==> len(au) == len(old(au)) - i*avail && le == avail
+//@     invariant i == packetCount ==> len(au) == 0
+//@     invariant (packetCount-1)*avail < len(old(au)) && len(old(au)) <= packetCount*avail
+//@     invariant e.sequenceNumber == old(e.sequenceNumber) + uint16(i)
+//@     invariant forall j :: 0 <= j && j < i ==> ret[j] != nil && fresh(ret[j]) && len(ret[j].Payload) <= e.PayloadMaxSize
+//@     invariant forall j :: 0 <= j && j < i ==> ret[j].SequenceNumber == old(e.sequenceNumber) + uint16(j)
+//@     invariant forall j :: 0 <= j && j < i ==> ret[j].Marker == (j == packetCount-1)
+//@     invariant forall j :: 0 <= j && j < i ==> ret[j].PayloadType == e.PayloadType && ret[j].SSRC == *e.SSRC
+//@     decreases packetCount - i
+
+//@ func (e *Encoder) writeBatch
+//@   opt frame-tag=C06
+//@   requires e.SSRC != nil && e.PayloadMaxSize <= 65535 && len(aus) >= 1 && okfields(e.SizeLength, e.IndexLength, e.IndexDeltaLength)
+//@   requires e.PayloadMaxSize - 2 - cd8(e.SizeLength + e.IndexLength) >= 1
+//@   requires forall k :: 0 <= k && k < len(aus) ==> len(aus[k]) >= 1
+//@   requires len(aus) >= 2 ==> 2 + cd8(hb(e.SizeLength, e.IndexLength, e.IndexDeltaLength, len(aus))) + sumlen(aus, len(aus)) <= e.PayloadMaxSize
+//@   ensures[C06] err == nil && len(ret) >= 1 && fresh(ret)
+//@   ensures[C06] forall j :: 0 <= j && j < len(ret) ==> ret[j] != nil && fresh(ret[j]) && len(ret[j].Payload) <= e.PayloadMaxSize
+//@   ensures[C06] forall j :: 0 <= j && j < len(ret) ==> ret[j].SequenceNumber == old(e.sequenceNumber) + uint16(j)
+//@   ensures[C06] e.sequenceNumber == old(e.sequenceNumber) + uint16(len(ret))
+//@   ensures[C06] forall j :: 0 <= j && j < len(ret) ==> ret[j].Marker == (j == len(ret)-1)
+//@   ensures[C06] forall j :: 0 <= j && j < len(ret) ==> ret[j].PayloadType == e.PayloadType && ret[j].SSRC == *e.SSRC
+//@   modifies e.sequenceNumber, fresh
+
+// Encode: "AUs must contain at least 1 element, each element must contain at least 1 byte";
+// the payload limit must leave room for one AU header and one byte.
+//@ func (e *Encoder) Encode
+//@   opt frame-tag=C06
+//@   requires e.SSRC != nil && e.PayloadMaxSize <= 65535 && len(aus) >= 1 && okfields(e.SizeLength, e.IndexLength, e.IndexDeltaLength)
+//@   requires e.PayloadMaxSize - 2 - cd8(e.SizeLength + e.IndexLength) >= 1
+//@   requires forall k :: 0 <= k && k < len(aus) ==> len(aus[k]) >= 1
+//@   ensures[C06] err == nil ==> len(ret) >= 1
+//@   ensures[C06] err == nil ==> forall j :: 0 <= j && j < len(ret) ==> ret[j] != nil && len(ret[j].Payload) <= e.PayloadMaxSize
+//@   ensures[C06] err == nil ==> forall j :: 0 <= j && j < len(ret) ==> ret[j].SequenceNumber == old(e.sequenceNumber) + uint16(j)
+//@   ensures[C06] err == nil ==> e.sequenceNumber == old(e.sequenceNumber) + uint16(len(ret))
+//@   ensures[C06] err == nil ==> ret[len(ret)-1].Marker
+//@   ensures[C06] err == nil ==> forall j :: 0 <= j && j < len(ret) ==> ret[j].PayloadType == e.PayloadType && ret[j].SSRC == *e.SSRC
+//@   modifies e.sequenceNumber, fresh
+//@   loop 1
+//@     invariant 0 <= _i && _i <= len(aus) && (_i >= 1 ==> batch != nil)
+//@     invariant batch != nil ==> len(batch) >= 1 && fresh(batch)
+//@     invariant forall k :: 0 <= k && k < len(batch) ==> len(batch[k]) >= 1
+//@     invariant len(batch) >= 2 ==> 2 + cd8(hb(e.SizeLength, e.IndexLength, e.IndexDeltaLength, len(batch))) + sumlen(batch, len(batch)) <= e.PayloadMaxSize
+//@     invariant e.sequenceNumber == old(e.sequenceNumber) + uint16(len(rets)) && len(rets) >= 0 && (rets != nil ==> fresh(rets))
+//@     invariant e.SSRC == old(e.SSRC) && e.PayloadMaxSize == old(e.PayloadMaxSize) && *e.SSRC == old(*e.SSRC) && e.PayloadType == old(e.PayloadType)
+//@     invariant e.SizeLength == old(e.SizeLength) && e.IndexLength == old(e.IndexLength) && e.IndexDeltaLength == old(e.IndexDeltaLength)
+//@     invariant forall j :: 0 <= j && j < len(rets) ==> rets[j] != nil && fresh(rets[j]) && len(rets[j].Payload) <= e.PayloadMaxSize
+//@     invariant forall j :: 0 <= j && j < len(rets) ==> rets[j].SequenceNumber == old(e.sequenceNumber) + uint16(j)
+//@     invariant forall j :: 0 <= j && j < len(rets) ==> rets[j].PayloadType == e.PayloadType && rets[j].SSRC == *e.SSRC
+//@     invariant len(rets) >= 1 ==> rets[len(rets)-1].Marker
+
 // Representation invariant of the RFC 3640 depacketizer: the field widths are those of a
 // parsed format (sizelength >= 1), and the partial access unit never exceeds one packet's
 // worth of bytes or, once a second fragment arrived, the codec's maximum (5120).
